@@ -62,6 +62,14 @@ def events(src, n):
         yield ev
 
 
+def with_other_start(src):
+    """the same rules, another start variable (a grammar that differs from `src` only in its start)"""
+    lhs = sorted({r[0] for r in src["rules"]})
+    if len(lhs) < 2:
+        return None
+    return dict(src, start=lhs[-1] if src["rules"][0][0] != lhs[-1] else lhs[0])
+
+
 def drive(task):
     if task["kind"] == "small":
         for i, rules in enumerate(cfgsrc.small_grammars(3)):
@@ -77,7 +85,11 @@ def drive(task):
     else:
         rng = random.Random(task["seed"])
         for i in range(task["count"]):
-            yield from events(cfgsrc.random_src(rng, many_vars=rng.random() < 0.25), task["n"])
+            src = cfgsrc.random_src(rng, many_vars=rng.random() < 0.25)
+            yield from events(src, task["n"])
+            alt = with_other_start(src) if i % 3 == 0 else None
+            if alt:
+                yield from events(alt, task["n"])
 
 
 def redrive(src):
